@@ -35,7 +35,7 @@ LEVEL_TEXT = ('Fault enumeration: every fault kind at every (variable, pass) pos
 LEVEL_NOTE = 'Trusted: reference machine in fsicverif/scripted.py and its reading of "replace" (see assumptions). Bounded by sequence length and pass <= 4.'
 TECHNIQUE = 'fault injection through scripted models + reference state machine (runtime monitor)'
 
-A_OUT = ['same', 'big', 'huge', 'nan', 'pinf', 'ninf', 'warn', 'exc', 'excse', 'zero']
+A_OUT = ['same', 'big', 'huge', 'nhuge', 'nan', 'pinf', 'ninf', 'warn', 'exc', 'excse', 'zero']
 B_OUT = ['same', 'huge', 'nan', 'zero']
 FAULTS = ['nan', 'pinf', 'ninf', 'warn', 'exc', 'excse']
 ERRORS = ['raise', 'skip', 'ignore', 'replace', 'bogus']
